@@ -71,6 +71,7 @@ namespace rkcommon {
 
 namespace rkverif {
   using rkcommon::utility::Any;
+  using rkcommon::utility::Optional;
   // odr-use every Any member for a few payloads
   inline void use_any()
   {
@@ -102,5 +103,19 @@ namespace rkverif {
     fromConstLvalue = cl;
     fromRvalue      = std::move(l);
     fromConstRvalue = static_cast<const Any &&>(cl);
+  }
+
+  // R-C09-13: constructing an Optional from an Optional of every value category must select a copy / move / converting constructor,
+  // never a constructor that takes the payload (for bool payloads an Optional source converts through `explicit operator bool`)
+  inline void optional_value_categories(Optional<bool> &lb, const Optional<bool> &clb, Optional<int> &li, const Optional<int> &cli)
+  {
+    Optional<bool> fromLvalue(lb);
+    Optional<bool> fromConstLvalue(clb);
+    Optional<bool> fromRvalue(std::move(lb));
+    Optional<bool> convLvalue(li);
+    Optional<bool> convConstLvalue(cli);
+    Optional<bool> convRvalue(std::move(li));
+    Optional<int> intLvalue(li);
+    Optional<int> intRvalue(std::move(li));
   }
 }  // namespace rkverif
